@@ -1,4 +1,7 @@
 import ColaVerif.Lemmas.UnaryPow
+import ColaVerif.Lemmas.UnaryEig
+import ColaVerif.Lemmas.UnaryBranch
+import ColaVerif.Lemmas.KrylovCompose
 import ColaVerif.Lemmas.AnnotSound
 import Mathlib.Analysis.Complex.Basic
 import Mathlib.Analysis.SpecialFunctions.Pow.Real
@@ -25,6 +28,19 @@ for EVERY operator tree the planned operator represents `f` of the represented m
 hypotheses at the leaves of the plan; `C09_action`: its action on every operand is that of `f(A)`;
 identities `C09_int_pow`, `C09_pow_neg_one`, `C09_sqrt_twice`; the decisions of `pow` on the
 exponents of the property (`C09_powPlan_exponents`, `C09_powPlan_nat`).
+
+**Round 2 (contracts instead of assumed conclusions).**  `UnOp.SoundE` (`Lemmas/UnaryEig.lean`) states only
+CONTRACTS at the leaves of a plan — LAPACK's eigendecomposition (`EigOK`: `A V = V diag d`, `Vi V = 1`, `Vi = Vᴴ`
+for `Eigh`), complete Krylov factorisations with the small eigendecomposition (`KrylovOK`), `inv` a left inverse,
+`Op.Good` operands of repeated products — and `C09_apply_unary_eig`, `C09_log_eig`, `C09_exp_eig`, `C09_pow_eig`
+conclude as before; `f(A) := V f(D) Vi` is DEFINED from the decomposition and independent of it
+(`C09_eig_defined`, `C09_eig_independent`), witness `C09_eig_witness`.  The Krylov paths: `C09_krylov_poly`,
+`C09_krylov_quadrature`, `C09_krylov_poly_code` (commutative ring, every polynomial), `C09_krylov_weighted` (the code after
+/repo 25c506e, partial `f`), and `C09_arnoldi_path` / `C09_lanczos_path` where the invariance `A Q = Q T` is no longer a
+hypothesis but the theorem of C15 / C14 about the loop models (`Lemmas/KrylovCompose.lean`).  Over `ℂ` with numpy's
+principal branches (`Lemmas/UnaryBranch.lean`): `C09_kron_pow_domain` (+ `_witness`, and `C09_kron_pow_counterexample`
+OUTSIDE the domain — the provisional clause `kron-pow-principal-branch`), `C09_complex_rules`,
+`C09_adjoint_cut_counterexample`.
 
 **Clause** (a modelled defect of the code, with a witness; the two earlier clauses `krylov-zero-mask`
 and `pow-neg-one-krylov-alg` were repaired in /repo — a523921, 57e439f — and the model follows the repaired
@@ -280,32 +296,8 @@ theorem C09_int_pow (pw : Rat → 𝕜 → 𝕜) (alg : Alg) (A : Op 𝕜) (hg :
         obtain ⟨Pj, hPj⟩ := ih (by omega)
         obtain ⟨⟨hr, hc, _⟩, hgP⟩ := powProduct_rep A hg hsq hH (j + 1) Pj (by omega) hPj
         have hdim : Pj.cols = A.rows := hc
-        have hdot : ∃ B', Ex.dotRule Pj A = .ok (.op B') := by
-          rw [ExprSound.dotRule_eq]
-          have hne : (Pj.cols != A.rows) = false := by simp [hdim]
-          simp only [hne, Bool.false_eq_true, if_false]
-          split
-          · exact ⟨_, rfl⟩
-          split
-          · exact ⟨_, rfl⟩
-          have pA := ExprSound.prodParts_spec A hg
-          have pP := ExprSound.prodParts_spec Pj hgP
-          have hch : Op.chainOk ((ExprSound.prodParts Pj ++ ExprSound.prodParts A).map
-              (fun M => (M.rows, M.cols))) = true := by
-            rw [List.map_append]
-            refine ExprSound.chainOk_append _ _ pP.chain pA.chain ?_
-            intro x hx y hy
-            simp only [List.getLast?_map, List.head?_map, Option.mem_def, Option.map_eq_some_iff] at hx hy
-            obtain ⟨M, hM, rfl⟩ := hx
-            obtain ⟨N, hN, rfl⟩ := hy
-            have h1 : ExprSound.lastCols (ExprSound.prodParts Pj) = M.cols := by
-              simp [ExprSound.lastCols, List.getLast?_map, hM]
-            have h2 : ExprSound.headRows (ExprSound.prodParts A) = N.rows := by
-              simp [ExprSound.headRows, List.head?_map, hN]
-            show M.cols = N.rows
-            rw [← h1, ← h2, pP.lc, pA.hr, hdim]
-          simp only [Ex.mkProd, hch, if_true]
-          exact ⟨_, rfl⟩
+        have hdot : ∃ B', Ex.dotRule Pj A = .ok (.op B') :=
+          ExprSound.dotRule_total Pj A hgP hg hdim
         obtain ⟨B', hB'⟩ := hdot
         exact ⟨B', by simp only [powProduct, hPj, bind, Except.bind, hB']⟩
   obtain ⟨B, hB⟩ := hex k hk
@@ -407,6 +399,237 @@ end real
 
 end C09
 
+namespace C09
+
+/-! ## base cases defined from the eigendecomposition; Krylov paths on the loop models -/
+
+section eig
+variable {𝕜 : Type} [Field 𝕜] [StarRing 𝕜] [DecidableEq 𝕜]
+
+/-- **dense base cases, from the LAPACK contract only**: the matrix the code builds,
+`V @ Diagonal(g(eigs)) @ Vi`, is `g(A)` for EVERY scalar function `g` (`hermitian = true`: `Eigh`,
+`Vi = Vᴴ`; `false`: `Eig`, `Vi = inv(V)`). -/
+theorem C09_eig_defined {S : Set 𝕜} {b : Bool} {A : Op 𝕜} {e : EigData 𝕜} (h : EigOK S b A e)
+    (g : 𝕜 → 𝕜) : IsMatFunOn S g (mat A) (MatF.toMatrix A.rows A.rows (e.apply A.rows g)) := h.matFun g
+
+/-- **… and it does not depend on the decomposition chosen** (any two eigendecompositions of the same
+operand that meet the contract build the same matrix, for every `g`, also non-polynomial ones) -/
+theorem C09_eig_independent {S T : Set 𝕜} {b b' : Bool} {A : Op 𝕜} {e e' : EigData 𝕜}
+    (h : EigOK S b A e) (h' : EigOK T b' A e') (g : 𝕜 → 𝕜) :
+    MatF.toMatrix A.rows A.rows (e.apply A.rows g) = MatF.toMatrix A.rows A.rows (e'.apply A.rows g) :=
+  IsMatFun.unique (h.matFun g) (h'.matFun g)
+
+/-- **`apply_unary(f, A, alg)` under contracts only** (`UnOp.SoundE`, Lemmas/UnaryEig.lean): LAPACK's
+eigendecomposition at `Eigh` / `Eig` nodes, complete Krylov factorisations + small eigendecompositions at
+`Lanczos` / `Arnoldi` nodes, `inv` a left inverse, `Op.Good` operands at repeated products — no oracle
+matrix is assumed to be `f(A)`. -/
+theorem C09_apply_unary_eig (E : EigOracle 𝕜) (S : Set 𝕜) (f : 𝕜 → 𝕜) (alg : Alg) (A : Op 𝕜)
+    (h : (applyUnary f alg A).SoundE E S f) :
+    A.cols = A.rows ∧
+      IsMatFunOn S f (mat A) (MatF.toMatrix A.rows A.rows ((applyUnary f alg A).toOp E.params).den.f) :=
+  C09_apply_unary E.params S f alg A (UnOp.SoundE.sound E S f _ h)
+
+theorem C09_log_eig (E : EigOracle 𝕜) (S : Set 𝕜) (l : 𝕜 → 𝕜) (alg : Alg) (A : Op 𝕜)
+    (h : (logRule l alg A).SoundE E S l) :
+    IsMatFunOn S l (mat A) (MatF.toMatrix A.rows A.rows ((logRule l alg A).toOp E.params).den.f) :=
+  C09_log E.params S l alg A (UnOp.SoundE.sound E S l _ h)
+
+theorem C09_exp_eig (E : EigOracle 𝕜) (S : Set 𝕜) (e : 𝕜 → 𝕜) (alg : Alg) (h0 : (0 : 𝕜) ∈ S)
+    (he0 : e 0 = 1) (hSadd : ∀ a ∈ S, ∀ b ∈ S, a + b ∈ S)
+    (he : ∀ a ∈ S, ∀ b ∈ S, e (a + b) = e a * e b) (A : Op 𝕜) (h : (expRule e alg A).SoundE E S e) :
+    IsMatFunOn S e (mat A) (MatF.toMatrix A.rows A.rows ((expRule e alg A).toOp E.params).den.f) :=
+  C09_exp E.params S e alg h0 he0 hSadd he A (UnOp.SoundE.sound E S e _ h)
+
+theorem C09_pow_eig (E : EigOracle 𝕜) (S : Set 𝕜) (pw : Rat → 𝕜 → 𝕜) (α : Rat) (alg : Alg)
+    (h1 : (1 : 𝕜) ∈ S) (hf1 : pw α 1 = 1) (hSmul : ∀ a ∈ S, ∀ b ∈ S, a * b ∈ S)
+    (hmul : ∀ a ∈ S, ∀ b ∈ S, pw α (a * b) = pw α a * pw α b) (A : Op 𝕜)
+    (h : (powRule pw α alg A).SoundE E S (pw α)) :
+    IsMatFunOn S (pw α) (mat A)
+      (MatF.toMatrix A.rows A.rows ((powRule pw α alg A).toOp E.params).den.f) :=
+  C09_pow E.params S pw α alg h1 hf1 hSmul hmul A (UnOp.SoundE.sound E S (pw α) _ h)
+
+/-- the contracts are satisfiable by a genuine eigendecomposition of a `2 × 2` non-diagonal matrix
+(`[[2,1],[1,2]] = V diag(3,1) V⁻¹`), for every `f` -/
+theorem C09_eig_witness (f : ℝ → ℝ) :
+    (applyUnary f .eig exA).SoundE exOracle (Set.Ioi 0) f ∧ exA.rows = 2 :=
+  ⟨exA_soundE f, exA_rows⟩
+
+end eig
+
+/-! ## Krylov paths -/
+
+section krylov
+variable {R : Type} [CommRing R] {ι κ : Type} [Fintype ι] [DecidableEq ι] [Fintype κ] [DecidableEq κ]
+
+/-- **`A Q = Q T ⇒ p(A) Q = Q p(T)` for every polynomial** (commutative ring; `Q` rectangular, no
+orthogonality) and `p(A) v = c • Q (p(T) e)` for `v = c • Q e` -/
+theorem C09_krylov_poly {A : Matrix ι ι R} {T : Matrix κ κ R} {Q : Matrix ι κ R} (h : A * Q = Q * T)
+    (p : Polynomial R) :
+    Polynomial.aeval A p * Q = Q * Polynomial.aeval T p ∧
+      ∀ (e : κ → R) (c : R) (v : ι → R), v = c • Q *ᵥ e →
+        Polynomial.aeval A p *ᵥ v = c • Q *ᵥ (Polynomial.aeval T p *ᵥ e) :=
+  ⟨KrylovPoly.aeval_intertwine h p, fun e c v hv => KrylovPoly.aeval_mulVec_start h p e c v hv⟩
+
+/-- **quadrature**: with `Qᴴ Q = 1`, `vᴴ p(A) v = c̄ c · p(T)₁₁` -/
+theorem C09_krylov_quadrature [StarRing R] {A : Matrix ι ι R} {T : Matrix κ κ R} {Q : Matrix ι κ R}
+    (h : A * Q = Q * T) (hQ : Qᴴ * Q = 1) (p : Polynomial R) (j : κ) (c : R) (v : ι → R)
+    (hv : v = c • Q *ᵥ (Pi.single j (1 : R) : κ → R)) :
+    star v ⬝ᵥ (Polynomial.aeval A p *ᵥ v) = star c * c * Polynomial.aeval T p j j :=
+  KrylovPoly.quadrature_single h hQ p j c v hv
+
+/-- **what the code computes for a polynomial `f`**: with the eigendecomposition contract on the small
+matrix, `Q P f(Λ) P⁻¹ (c e) = p(A) v` whenever `f` agrees with `p` on the Ritz values — no
+diagonalisability of `A` is needed for polynomial functions -/
+theorem C09_krylov_poly_code {A : Matrix ι ι R} {T P Pi : Matrix κ κ R} {Q : Matrix ι κ R} {θ : κ → R}
+    (hfac : A * Q = Q * T) (hP : Pi * P = 1) (hT : T * P = P * Matrix.diagonal θ)
+    (p : Polynomial R) (f : R → R) (hf : ∀ j, p.eval (θ j) = f (θ j)) (e : κ → R) (c : R) (v : ι → R)
+    (hv : v = c • Q *ᵥ e) :
+    KrylovPoly.krylovVec Q P Pi θ f (c • e) = Polynomial.aeval A p *ᵥ v :=
+  KrylovPoly.krylovVec_poly hfac hP hT p f hf e c v hv
+
+end krylov
+
+section krylovField
+variable {𝕜 : Type} [Field 𝕜] {ι κ : Type} [Fintype ι] [DecidableEq ι] [Fintype κ] [DecidableEq κ]
+
+/-- **the code after /repo 25c506e (`_weighted`)**, `f` a PARTIAL scalar function (`none` = `±inf`,
+`nan`): it is enough that `f` is defined on the Ritz values that carry weight; then no `nan` arises and
+the output is `f(A) v`.  (A Ritz value of zero weight — zero padding of a batch member that finished
+early — may lie outside the domain of `f`.) -/
+theorem C09_krylov_weighted [DecidableEq 𝕜] {A V Vi : Matrix ι ι 𝕜} {d : ι → 𝕜}
+    {T P Pi : Matrix κ κ 𝕜} {Q : Matrix ι κ 𝕜} {θ : κ → 𝕜} (hV : Vi * V = 1)
+    (hA : A = V * Matrix.diagonal d * Vi) (hfac : A * Q = Q * T) (hP : Pi * P = 1)
+    (hT : T * P = P * Matrix.diagonal θ) (fp : 𝕜 → Option 𝕜) (f : 𝕜 → 𝕜) (e : κ → 𝕜) (c : 𝕜)
+    (v : ι → 𝕜) (hv : v = c • Q *ᵥ e)
+    (hdef : ∀ j, (Pi *ᵥ (c • e)) j ≠ 0 → fp (θ j) = some (f (θ j))) :
+    (∀ j, KrylovPoly.weighted fp (θ j) ((Pi *ᵥ (c • e)) j) = some (f (θ j) * (Pi *ᵥ (c • e)) j)) ∧
+      KrylovPoly.krylovVec Q P Pi θ f (c • e) = (V * Matrix.diagonal (fun i => f (d i)) * Vi) *ᵥ v :=
+  KrylovPoly.krylovW_end_to_end hV hA hfac hP hT fp f e c v hv hdef
+
+/-- why the guard is needed: WITHOUT it a zero-weight Ritz value outside the domain of `f` makes the
+weighted term undefined (`nan`), whatever the weight -/
+theorem C09_unweighted_would_fail (fp : 𝕜 → Option 𝕜) (x w : 𝕜) (h : fp x = none) :
+    (fp x).map (· * w) = none ∧ ∀ [DecidableEq 𝕜], KrylovPoly.weighted fp x 0 = some 0 :=
+  ⟨KrylovPoly.unweighted_undefined fp x w h, fun {_} => by simp [KrylovPoly.weighted]⟩
+
+end krylovField
+
+section models
+variable {𝕜 : Type} [RCLike 𝕜] {n : ℕ}
+open KrylovPoly
+
+/-- **`ArnoldiUnary._matmat` on the loop model of C15** (`Arnoldi.run`, exact arithmetic): when the run
+stops on an exact breakdown (`stopExact`, Krylov space exhausted) without clipping (`noClip`), the
+returned vector — buffers trimmed to the executed steps `s = iterations - 1`, eigendecomposition
+contract on the leading block of `H` — is `f(A) v` for EVERY `f`.  The invariance `A Q = Q H` is not a
+hypothesis: it is `Arnoldi.Inv.invariant_relation` (C15). -/
+theorem C09_arnoldi_path (Am : Matrix (Fin n) (Fin n) 𝕜) (nn M : ℕ) (tol : ℝ) (tolPos : 0 < tol)
+    (v : EuclideanSpace 𝕜 (Fin n)) (startNonzero : v ≠ 0)
+    (noClip : ∀ i, i + 1 < (Arnoldi.runE (Matrix.toEuclideanLin Am) nn M tol [v]).idx →
+      tol / 2 ≤ (Arnoldi.colAt (Matrix.toEuclideanLin Am) M tol v
+        (Arnoldi.runE (Matrix.toEuclideanLin Am) nn M tol [v]).idx).beta i)
+    (stopExact : 0 < (Arnoldi.runE (Matrix.toEuclideanLin Am) nn M tol [v]).idx ∧
+      (Arnoldi.colAt (Matrix.toEuclideanLin Am) M tol v
+        (Arnoldi.runE (Matrix.toEuclideanLin Am) nn M tol [v]).idx).beta
+        ((Arnoldi.runE (Matrix.toEuclideanLin Am) nn M tol [v]).idx - 1) = 0)
+    {V Vi : Matrix (Fin n) (Fin n) 𝕜} {d : Fin n → 𝕜} (hV : Vi * V = 1)
+    (hA : Am = V * Matrix.diagonal d * Vi)
+    {P Pi : Matrix (Fin (Arnoldi.runE (Matrix.toEuclideanLin Am) nn M tol [v]).idx)
+      (Fin (Arnoldi.runE (Matrix.toEuclideanLin Am) nn M tol [v]).idx) 𝕜}
+    {θ : Fin (Arnoldi.runE (Matrix.toEuclideanLin Am) nn M tol [v]).idx → 𝕜} (hP : Pi * P = 1)
+    (hT : blockMat (Arnoldi.colAt (Matrix.toEuclideanLin Am) M tol v
+        (Arnoldi.runE (Matrix.toEuclideanLin Am) nn M tol [v]).idx).h
+        (Arnoldi.runE (Matrix.toEuclideanLin Am) nn M tol [v]).idx * P = P * Matrix.diagonal θ)
+    (f : 𝕜 → 𝕜) :
+    krylovVec (colMat (Arnoldi.colAt (Matrix.toEuclideanLin Am) M tol v
+          (Arnoldi.runE (Matrix.toEuclideanLin Am) nn M tol [v]).idx).q
+          (Arnoldi.runE (Matrix.toEuclideanLin Am) nn M tol [v]).idx) P Pi θ f
+        (((‖v‖ : ℝ) : 𝕜) • (_root_.Pi.single (⟨0, stopExact.1⟩ :
+          Fin (Arnoldi.runE (Matrix.toEuclideanLin Am) nn M tol [v]).idx) (1 : 𝕜)))
+      = (V * Matrix.diagonal (fun i => f (d i)) * Vi) *ᵥ v.ofLp :=
+  KrylovCompose.arnoldi_unary_exact Am nn M tol tolPos v startNonzero noClip stopExact hV hA hP hT f
+
+attribute [local instance] Lanczos.exactNum Lanczos.exactVec in
+/-- **`LanczosUnary._matmat` on the loop model of C14** (`Lanczos.lanczosExact`): Hermitian operand,
+zero residual (`exhausted`), contract of `eigh` on `T` (`T P = P diag θ`, `Pᴴ P = 1`): the returned
+vector is `f(A) v` for EVERY `f`.  `A Q = Q T` is the conjunct `rel` of `C14_lanczos`. -/
+theorem C09_lanczos_path (Am : Matrix (Fin n) (Fin n) 𝕜)
+    (A_hermitian : (Matrix.toEuclideanLin Am).IsSymmetric) (nn max_iters : ℕ)
+    (v : EuclideanSpace 𝕜 (Fin n)) (tol : ℝ) (start_nonzero : v ≠ 0) (tol_nonneg : 0 ≤ tol)
+    (cap_pos : 1 ≤ min max_iters nn)
+    (exhausted : (Lanczos.lanczosExact (Matrix.toEuclideanLin Am) nn #[v] max_iters tol).resid
+      (Matrix.toEuclideanLin Am) 0 = 0)
+    {V Vi : Matrix (Fin n) (Fin n) 𝕜} {d : Fin n → 𝕜} (hV : Vi * V = 1)
+    (hA : Am = V * Matrix.diagonal d * Vi)
+    {P : Matrix (Fin (Lanczos.lanczosExact (Matrix.toEuclideanLin Am) nn #[v] max_iters tol).iters)
+      (Fin (Lanczos.lanczosExact (Matrix.toEuclideanLin Am) nn #[v] max_iters tol).iters) 𝕜}
+    {θ : Fin (Lanczos.lanczosExact (Matrix.toEuclideanLin Am) nn #[v] max_iters tol).iters → 𝕜}
+    (hP : Pᴴ * P = 1)
+    (hT : blockMat ((Lanczos.lanczosExact (Matrix.toEuclideanLin Am) nn #[v] max_iters tol).T 0)
+        (Lanczos.lanczosExact (Matrix.toEuclideanLin Am) nn #[v] max_iters tol).iters * P
+          = P * Matrix.diagonal θ)
+    (f : 𝕜 → 𝕜) :
+    ∃ hk : 0 < (Lanczos.lanczosExact (Matrix.toEuclideanLin Am) nn #[v] max_iters tol).iters,
+    krylovVec (colMat ((Lanczos.lanczosExact (Matrix.toEuclideanLin Am) nn #[v] max_iters tol).q 0)
+          (Lanczos.lanczosExact (Matrix.toEuclideanLin Am) nn #[v] max_iters tol).iters) P Pᴴ θ f
+        (((‖v‖ : ℝ) : 𝕜) • (_root_.Pi.single (⟨0, hk⟩ :
+          Fin (Lanczos.lanczosExact (Matrix.toEuclideanLin Am) nn #[v] max_iters tol).iters) (1 : 𝕜)))
+      = (V * Matrix.diagonal (fun i => f (d i)) * Vi) *ᵥ v.ofLp :=
+  KrylovCompose.lanczos_unary_exact Am A_hermitian nn max_iters v tol start_nonzero tol_nonneg cap_pos
+    exhausted hV hA hP hT f
+
+end models
+
+/-! ## the principal branches over `ℂ`: domains of the structural rules -/
+
+section branches
+variable {ι κ : Type} [Fintype ι] [DecidableEq ι] [Fintype κ] [DecidableEq κ]
+
+/-- **`pow(A ⊗ B, α) = pow(A, α) ⊗ pow(B, α)` for numpy's principal power `z ↦ z ^ α`** on the explicit
+domain `ArgSumOK S T` (arguments of the two spectra add inside `(-π, π]`), non-singular factors -/
+theorem C09_kron_pow_domain {S T : Set ℂ} (α : ℚ) {A F : Matrix ι ι ℂ} {B G : Matrix κ κ ℂ}
+    (hA : IsMatFunOn S (cpowQ α) A F) (hB : IsMatFunOn T (cpowQ α) B G)
+    (hS0 : (0 : ℂ) ∉ S) (hT0 : (0 : ℂ) ∉ T) (hdom : ArgSumOK S T) :
+    IsMatFunOn {c | ∃ a ∈ S, ∃ b ∈ T, c = a * b} (cpowQ α) (A ⊗ₖ B) (F ⊗ₖ G) :=
+  kronecker_cpow α hA hB hS0 hT0 hdom
+
+/-- the domain is inhabited: both spectra in the open right half plane (then the spectrum of `A ⊗ B`
+stays off the branch cut); integer exponents need no domain -/
+theorem C09_kron_pow_domain_witness :
+    ArgSumOK {z : ℂ | 0 < z.re} {z : ℂ | 0 < z.re} ∧
+      (∀ a b : ℂ, 0 < a.re → 0 < b.re → (a * b).arg ≠ Real.pi) ∧
+      ∀ (k : ℤ) (a b : ℂ), (a * b) ^ k = a ^ k * b ^ k :=
+  ⟨argSumOK_rhp, fun _ _ ha hb => rhp_mul_offCut ha hb, fun k a b => mul_zpow a b k⟩
+
+/-- **OUTSIDE the domain the rule is FALSE** (clause `kron-pow-principal-branch`): for
+`A = B = diag(-1, 1)` the Kronecker product of the principal square roots is a square root of `A ⊗ B`
+but not the principal one (entry `-1` instead of `1`) — and `{-1, 1}` violates `ArgSumOK`. -/
+theorem C09_kron_pow_counterexample :
+    (∃ (A F : Matrix (Fin 2) (Fin 2) ℂ) (H : Matrix (Fin 2 × Fin 2) (Fin 2 × Fin 2) ℂ),
+      IsMatFun (cpowQ (1 / 2)) A F ∧ IsMatFun (cpowQ (1 / 2)) (A ⊗ₖ A) H ∧ H ≠ F ⊗ₖ F ∧
+      (F ⊗ₖ F) * (F ⊗ₖ F) = A ⊗ₖ A) ∧ ¬ ArgSumOK {z | z = -1 ∨ z = 1} {z | z = -1 ∨ z = 1} :=
+  kronecker_sqrt_counterexample
+
+/-- `exp(KronSum)` and the Adjoint rule for the complex functions: `exp` everywhere; `log` and
+`z ↦ z ^ α` off the cut (`OffCut S`: no eigenvalue with `arg = π`); the Transpose rule needs nothing. -/
+theorem C09_complex_rules {S T : Set ℂ} {A F : Matrix ι ι ℂ} {B G : Matrix κ κ ℂ} :
+    (IsMatFunOn S Complex.exp A F → IsMatFunOn T Complex.exp B G →
+      IsMatFunOn Set.univ Complex.exp (A ⊗ₖ (1 : Matrix κ κ ℂ) + (1 : Matrix ι ι ℂ) ⊗ₖ B) (F ⊗ₖ G)) ∧
+    (IsMatFunOn S Complex.exp A F → IsMatFunOn Set.univ Complex.exp Aᴴ Fᴴ) ∧
+    (IsMatFunOn S Complex.log A F → OffCut S → IsMatFunOn Set.univ Complex.log Aᴴ Fᴴ) ∧
+    (∀ α : ℚ, IsMatFunOn S (cpowQ α) A F → OffCut S → IsMatFunOn Set.univ (cpowQ α) Aᴴ Fᴴ) ∧
+    (∀ f : ℂ → ℂ, IsMatFunOn S f A F → IsMatFunOn S f Aᵀ Fᵀ) :=
+  ⟨kronSum_exp, adjoint_exp, adjoint_log, fun α => adjoint_cpow α, fun _ h => h.transpose⟩
+
+/-- on the cut the Adjoint rule for `log` is false: `log (conj (-1)) = iπ ≠ -iπ = conj (log (-1))` -/
+theorem C09_adjoint_cut_counterexample :
+    Complex.log ((starRingEnd ℂ) (-1)) ≠ (starRingEnd ℂ) (Complex.log (-1)) ∧ (-1 : ℂ).arg = Real.pi :=
+  adjoint_log_counterexample
+
+end branches
+
+end C09
+
 #print axioms C09.C09_matFun_unique
 #print axioms C09.C09_matFun_eq_poly
 #print axioms C09.C09_spec_iff
@@ -440,3 +663,48 @@ end C09
 #print axioms C09.C09_action
 #print axioms C09.C09_action_clause_needed
 #print axioms C09.C09_real_instances
+#print axioms C09.C09_eig_defined
+#print axioms C09.C09_eig_independent
+#print axioms C09.C09_apply_unary_eig
+#print axioms C09.C09_log_eig
+#print axioms C09.C09_exp_eig
+#print axioms C09.C09_pow_eig
+#print axioms C09.C09_eig_witness
+#print axioms C09.C09_krylov_poly
+#print axioms C09.C09_krylov_quadrature
+#print axioms C09.C09_krylov_poly_code
+#print axioms C09.C09_krylov_weighted
+#print axioms C09.C09_unweighted_would_fail
+#print axioms C09.C09_arnoldi_path
+#print axioms C09.C09_lanczos_path
+#print axioms C09.C09_kron_pow_domain
+#print axioms C09.C09_kron_pow_domain_witness
+#print axioms C09.C09_kron_pow_counterexample
+#print axioms C09.C09_complex_rules
+#print axioms C09.C09_adjoint_cut_counterexample
+
+/-! ## the Kronecker rule of `pow` on operator trees, principal complex power -/
+
+namespace C09
+
+/-- **`pow(Kronecker(A, B), α)` for numpy's principal power on operator trees**: members whose results
+represent `A ** α`, `B ** α` on spectrum sets `S`, `T` (from `C09_pow` / `C09_pow_eig` applied to each member) with
+`ArgSumOK S T` (and non-singular): the rule returns `Kronecker(pow(A, α), pow(B, α))` and it represents the principal
+`(A ⊗ B) ** α`.  No set has to be closed under multiplication.  Outside `ArgSumOK`: `C09_kron_pow_counterexample`. -/
+theorem C09_pow_kron_complex (P : Params ℂ) (α : ℚ) (alg : Alg) {S T : Set ℂ} (A B : Op ℂ)
+    (hA : MatFunOK S (cpowQ α) A ((powRule cpowQ α alg A).toOp P))
+    (hB : MatFunOK T (cpowQ α) B ((powRule cpowQ α alg B).toOp P))
+    (hS0 : (0 : ℂ) ∉ S) (hT0 : (0 : ℂ) ∉ T) (hdom : ArgSumOK S T) :
+    powRule cpowQ α alg (.kron [A, B]) = .kron [powRule cpowQ α alg A, powRule cpowQ α alg B] ∧
+      IsMatFunOn {c | ∃ a ∈ S, ∃ b ∈ T, c = a * b} (cpowQ α) (mat (.kron [A, B]))
+        (MatF.toMatrix (Op.kron [A, B]).rows (Op.kron [A, B]).rows
+          ((powRule cpowQ α alg (.kron [A, B])).toOp P).den.f) := by
+  have h := powRule_kron2_ok P cpowQ α alg A B (by simp [cpowQ]) hA hB (fun a ha b hb => by
+    have ha0 : a ≠ 0 := fun h => hS0 (h ▸ ha)
+    have hb0 : b ≠ 0 := fun h => hT0 (h ▸ hb)
+    exact cpow_mul_of_argSum _ ha0 hb0 (hdom a ha b hb ha0 hb0))
+  exact ⟨h.1, h.2.2.2.2⟩
+
+end C09
+
+#print axioms C09.C09_pow_kron_complex
